@@ -2,6 +2,7 @@
 the working tree, observation through the public API, serialisation as Gallina terms."""
 import copy, random, warnings
 from . import gallina as G
+from . import common as C
 
 # ---------------------------------------------------------------------------------------------
 # label pools
@@ -21,6 +22,7 @@ def make_pool(rng, style):
         eids = [0, 1, (0, 1), (2,), 3, 6]
     return nodes, eids
 
+ITER_OK = True     # member collections may be presented as tuples / one-shot iterators (common.members)
 STYLES = ["int", "int", "int", "str", "mixed", "tuple"]
 ATTR_KEYS = ["color", "w", "name"]
 ATTR_VALS = [1, 2, "red", "blue", None, 7]
@@ -267,14 +269,14 @@ def _norm(x):
 
 def bunch_arg(fmt, items):
     if fmt == 1:
-        return [list(ms) for ms in items]
+        return [C.members(ms) for ms in items]
     if fmt == 2:
-        return [(list(ms), _pres(i)) for ms, i in items]
+        return [(C.members(ms), _pres(i)) for ms, i in items]
     if fmt == 3:
-        return [(list(ms), dict(a)) for ms, a in items]
+        return [(C.members(ms), dict(a)) for ms, a in items]
     if fmt == 4:
-        return [(list(ms), _pres(i), dict(a)) for ms, i, a in items]
-    return {_pres(i): list(ms) for i, ms in items}
+        return [(C.members(ms), _pres(i), dict(a)) for ms, i, a in items]
+    return {_pres(i): C.members(ms) for i, ms in items}
 
 def apply_op(H, op):
     """Run one op on the implementation.  Returns (extra, exception name or None, #warnings);
@@ -289,7 +291,7 @@ def apply_op(H, op):
             if name == "add_edge":
                 _, ms, idx, a = op
                 extra = list(set(ms))
-                H.add_edge(list(ms), idx=_pres(idx), **a) if idx is not None else H.add_edge(list(ms), **a)
+                H.add_edge(C.members(ms), idx=_pres(idx), **a) if idx is not None else H.add_edge(C.members(ms), **a)
             elif name == "add_edges_from":
                 _, fmt, items, a = op
                 H.add_edges_from(bunch_arg(fmt, items), **a)
